@@ -36,6 +36,9 @@ use crate::hll::serialization::SERIAL_VERSION;
 use crate::hll::serialization::encode_mode_byte;
 
 /// List for sequential coupon storage with duplicate detection
+/// Largest list array accepted from a serialized image (Java and C++ always write 3).
+const MAX_LG_LIST_SIZE: usize = 8;
+
 #[derive(Debug, Clone, PartialEq)]
 pub struct List {
     container: Container,
@@ -82,19 +85,43 @@ impl List {
         empty: bool,
         compact: bool,
     ) -> Result<Self, Error> {
-        // Compute array size
-        let array_size = if compact { coupon_count } else { 1 << lg_arr };
+        // The in-memory list always has its full capacity of `1 << lg_arr` slots; a compact image
+        // only stores the occupied prefix. (Sizing the array by the coupon count made every
+        // deserialized list "full", so the next update was dropped during promotion.)
+        if lg_arr > MAX_LG_LIST_SIZE {
+            return Err(Error::deserial(format!(
+                "list lg_arr must be at most {MAX_LG_LIST_SIZE}, got {lg_arr}"
+            )));
+        }
+        let array_size = 1usize << lg_arr;
+        if coupon_count > array_size {
+            return Err(Error::deserial(format!(
+                "list of {array_size} slots cannot hold {coupon_count} coupons"
+            )));
+        }
+        let stored = if compact { coupon_count } else { array_size };
 
         // Read coupons
         let mut coupons = vec![0u32; array_size];
         if !empty && coupon_count > 0 {
-            for (i, coupon) in coupons.iter_mut().enumerate() {
+            for (i, coupon) in coupons.iter_mut().take(stored).enumerate() {
                 *coupon = cursor.read_u32_le().map_err(|_| {
                     Error::insufficient_data(format!(
                         "expect {coupon_count} coupons, failed at index {i}"
                     ))
                 })?;
             }
+        }
+
+        // The coupons must form a gap-free prefix: `update` and `len` rely on it.
+        let occupied = coupons
+            .iter()
+            .take_while(|&&c| c != COUPON_EMPTY)
+            .count();
+        if occupied != coupon_count || coupons[occupied..].iter().any(|&c| c != COUPON_EMPTY) {
+            return Err(Error::deserial(format!(
+                "list image does not hold {coupon_count} contiguous coupons"
+            )));
         }
 
         Ok(Self {
